@@ -27,16 +27,24 @@ Definition vresponse (r : response) : val :=
   | NotFound404 => VList [VInt 404; VStr []]
   end.
 
-(* case = [records; delimiter; list of request paths (without the leading '/')];
+(* case = [records; delimiter; list of request paths (without the leading '/'); what converter.expand(path) answers for
+          each path on the implementation (None or the URI) -- "redirects to the result of converter.expand" is judged against it];
    obs = per request [flask response; fastapi response] *)
-Record wcase := { wc_recs : list record; wc_delim : str; wc_paths : list str }.
+Record wcase := { wc_recs : list record; wc_delim : str; wc_paths : list str; wc_expands : list (option str) }.
 Definition decode_wcase (v : val) : option wcase :=
   match v with
-  | VList [rs; VStr d; ps] =>
-      match as_records rs, as_strs ps with
-      | Some rs', Some ps' => Some {| wc_recs := rs'; wc_delim := d; wc_paths := ps' |}
-      | _, _ => None end
+  | VList [rs; VStr d; ps; es] =>
+      match as_records rs, as_strs ps, as_list_of (as_opt as_str) es with
+      | Some rs', Some ps', Some es' => Some {| wc_recs := rs'; wc_delim := d; wc_paths := ps'; wc_expands := es' |}
+      | _, _, _ => None end
   | _ => None
+  end.
+
+(* the response the property demands, given what expand answers *)
+Definition rel_response (d rest : str) (e : option str) : val :=
+  match partition d rest with
+  | Some _ => match e with Some loc => VList [VInt 302; VStr loc] | None => VList [VInt 422; VStr []] end
+  | None => VList [VInt 404; VStr []]
   end.
 
 Definition spec_response (rs : list record) (d rest : str) : val :=
@@ -65,15 +73,15 @@ Definition request_ok (d rest : str) : bool :=
                    && forallb segment_ok (segments i [])
   | None => false end.
 Definition valid_w (k : wcase) : bool :=
-  strict_okb (wc_recs k) && negb (is_nil (wc_delim k)) && forallb (request_ok (wc_delim k)) (wc_paths k).
+  negb (is_nil (wc_delim k)) && forallb (request_ok (wc_delim k)) (wc_paths k) && Nat.eqb (length (wc_expands k)) (length (wc_paths k)).
 
 Definition P_C17 (k : wcase) (o : val) : bool :=
   match o with
   | VList rows =>
       Nat.eqb (length rows) (length (wc_paths k)) &&
       forallb (fun pr => match snd pr with
-                         | VList [fl; fa] => val_eqb fl fa && val_eqb fl (spec_response (wc_recs k) (wc_delim k) (fst pr))
-                         | _ => false end) (combine (wc_paths k) rows)
+                         | VList [fl; fa] => val_eqb fl fa && val_eqb fl (rel_response (wc_delim k) (fst (fst pr)) (snd (fst pr)))
+                         | _ => false end) (combine (combine (wc_paths k) (wc_expands k)) rows)
   | _ => false
   end.
 
@@ -81,9 +89,7 @@ Definition run_resolver (case obs : val) : val :=
   match decode_wcase case with
   | None => VList [VInt (-1)]
   | Some k =>
-      let m := match mk_conv true (wc_delim k) (wc_recs k) with
-               | Val c => VList (map (fun p => let r := vresponse (resolve c p) in VList [r; r]) (wc_paths k))
-               | Raise _ => VList [VInt (-3)] end in
+      let m := VList (map (fun pe => let r := rel_response (wc_delim k) (fst pe) (snd pe) in VList [r; r]) (combine (wc_paths k) (wc_expands k))) in
       let same := val_eqb m obs in
       VList [vbool same; vbool (valid_w k); vbool (P_C17 k m); vbool (P_C17 k obs); if same then VList [] else m]
   end.
